@@ -49,14 +49,26 @@ def observe(t):
     }
 
 
-def check_tensor(t, fmt, dims, model, what, case, findings, stats):
-    """Compare every observable of t with the model; append findings."""
+def check_tensor(t, fmt, dims, model, what, case, findings, stats, zeros_optional=False):
+    """Compare every observable of t with the model; append findings.
+
+    zeros_optional: the constructor reads a dense nested list, for which nothing says whether a 0.0 becomes a
+    stored explicit zero; then only the non-zero content and the canonicity of whatever is stored are demanded."""
     try:
         obs = observe(t)
     except Exception as e:  # noqa: BLE001
         findings.append(_f("read-back-raises", f"{what}: reading the tensor raised {type(e).__name__}: {e}", case,
                            exception=type(e).__name__))
         return None
+    if zeros_optional:
+        from ..rt import raw_decode
+
+        _d, _f2, stored_now, problems = raw_decode(t)
+        if problems:
+            findings.append(_f("readback-structure", f"{what}: stored structure is not canonical: {problems}", case,
+                               self_inverse_ordering=True))
+            return None
+        model = {**{c: 0.0 for c in stored_now}, **{c: v for c, v in model.items() if v != 0.0}}
     indices, vals, coords = expected_image(fmt, dims, model)
     nz = {c: v for c, v in model.items() if v != 0.0}
     bad = None
@@ -164,7 +176,8 @@ def work(unit):
                             findings.append(_f("constructor-raises", f"{cname} raised {type(e).__name__}: {e}", c2,
                                                exception=type(e).__name__))
                             continue
-                        obs = check_tensor(t, fmt, dims, mdl, cname, c2, findings, stats)
+                        obs = check_tensor(t, fmt, dims, mdl, cname, c2, findings, stats,
+                                           zeros_optional=(cname == "from_lol"))
                         if obs is None:
                             continue
                         if first is None and cname != "from_lol":
